@@ -148,7 +148,7 @@ func (*c01b) Gen(rng *RNG, tier string) []Case {
 	for i := 0; i < n; i++ {
 		content := rng.Bytes(rng.Intn(20))
 		if i < 3 {
-			content = content[:i%len(append(content, 0, 0))%3]
+			content = append(content, 0, 0)[:i] // lengths 0, 1, 2 whatever the generator drew
 		}
 		size := int64(len(content))
 		dg := sha256Digest(content)
